@@ -163,7 +163,7 @@ def fnName : Fn → String
   | .integral _ d .. => if d = 0 then "integral" else "integral-windowed"
 
 /-- signatures that are recorded findings: reported only when nothing else fails -/
-def lowPriority (sig : String) : Bool := sig = "single-point-time" || sig = "mode-tie"
+def lowPriority (sig : String) : Bool := sig = "integral-descending" || sig = "mode-tie"
 
 structure Acc where
   tags : List String := []
